@@ -1739,10 +1739,12 @@ class VirtualMachine:
       # the hood to store things like iterators for list comprehensions. Even if
       # something goes wrong, we should not expose this implementation detail to
       # the user.
-      if re.fullmatch(r"\.\d+", name):
-        val = self.ctx.new_unsolvable(state.node)
-      elif on_uninitialized == _UninitializedBehavior.PUSH_NULL:
+      if on_uninitialized == _UninitializedBehavior.PUSH_NULL:
+        # LOAD_FAST_AND_CLEAR saves "unbound" (also for the hidden ".0"), so
+        # that the matching STORE_FAST unbinds the name again.
         val = abstract.Null(self.ctx).to_variable(state.node)
+      elif re.fullmatch(r"\.\d+", name):
+        val = self.ctx.new_unsolvable(state.node)
       else:
         val = self._name_error_or_late_annotation(state, name).to_variable(
             state.node
